@@ -84,6 +84,7 @@ def run(tier="quick"):
             return out
     lk = facts._lock("witness")
     try:
+        facts.prune_target("witness")
         generate(cases, d)
         env = dict(os.environ)
         env.update({"CARGO_TARGET_DIR": os.path.join(facts.WORK, "target", "witness"), "CARGO_NET_OFFLINE": "true"})
